@@ -518,6 +518,37 @@ func genDocs(o *out, r *rng, thorough bool, suite string) {
 			o.op("oreset")
 		}
 	}
+	if suite == "c05" || suite == "c07" || suite == "c06" {
+		// long line strings / rings whose segments all straddle the centre lines of their bounding
+		// box, at and above the default index threshold (64 points), under the default options
+		for i := 0; i < 12; i++ {
+			m := r.pick([]int{63, 64, 65, 66, 100, 130})
+			var ps []string
+			for k := 0; k < m; k++ {
+				switch i % 3 {
+				case 0:
+					ps = append(ps, fmt.Sprintf("[%d,%d]", (k%2)*10, k))
+				case 1:
+					ps = append(ps, fmt.Sprintf("[%d,%d]", (k%2)*20-10-(k%2)*0, (1-k%2)*20-10+k/2))
+				default:
+					ps = append(ps, fmt.Sprintf("[%d.5,%d.25]", k%7, k%5))
+				}
+			}
+			text := `{"type":"LineString","coordinates":[` + strings.Join(ps, ",") + `]}`
+			if i%2 == 1 {
+				text = `{"type":"Polygon","coordinates":[[` + strings.Join(append(ps, ps[0]), ",") + `]]}`
+			}
+			id := o.newID("Z")
+			opts := defaultOptsS
+			if i >= 6 {
+				opts = optsStr(64, r.pick([]int{1, 32, 64}), r.pick([]int{1, 2}), false, false, false, false)
+			}
+			emitParse(o, "oparsewf", id, opts, text)
+			o.op("ojson %s", id)
+			o.op("xroundtrip %s %s", id, opts)
+		}
+		o.op("oreset")
+	}
 	if suite == "c05" || suite == "c07" {
 		// arbitrary bytes, truncations and splices
 		m := 1500
